@@ -204,7 +204,7 @@ def run_sessions(run, specs, oracle=None, relevant=0xFF, model_verify=True, jobs
         if oracle:
             oracle(run, s, o)
         for vi, v in enumerate(o["verifies"]):
-            if v["result"].startswith("panic"):
+            if v["result"].startswith("panic") and not s.get("_beyond_constructors"):
                 run.violation(f"verification panicked: {v['result'][:200]}", {"kind": "session", "spec": strip(s), "verify": vi})
             fins = [x for x in v.get("merlin", []) if x[0] == "fin"]
             if any(x[2] != "00" * 32 for x in fins):
